@@ -1,16 +1,183 @@
 (* C13 — Math and global utility functions honour ES5 15.8 and 15.1.
-   Only statements here; proofs are in C13/Proofs*.v. *)
+   Only statements here; proofs are in C13/Proofs*.v.
+   Spec* = ES5 15.8.2, 15.1.2.4-5, 15.1.3, B.2.1-2 transcribed over bit patterns
+   (Z) and lists of UTF-16 code units; Model* = otto's wrappers and coders.
+   The correspondence run ties otto to both on every generated call. *)
 From Coq Require Import ZArith List Bool.
-From Otto Require Import Common.Double C13.SpecMath C13.ModelMath C13.SpecURI C13.ModelURI C13.ProofsMath.
+From Otto Require Import Common.Double C13.SpecMath C13.ModelMath C13.SpecURI C13.ModelURI
+     C13.ProofsMath C13.ProofsURI.
 Import ListNotations.
 Open Scope Z_scope.
 
+(* ---- 15.1.3: decode (encode s) = s for EVERY well-formed code unit string ---- *)
+Theorem C13_uri_roundtrip : forall s, Forall unit_range s -> well_formed s = true ->
+  (exists e, encodeURIComponent_spec s = Some e /\ decodeURIComponent_spec e = Some s) /\
+  (exists e, encodeURI_spec s = Some e /\ decodeURI_spec e = Some s).
+Proof. intros s H W. split; [exact (component_roundtrip s H W) | exact (uri_roundtrip s H W)]. Qed.
+Print Assumptions C13_uri_roundtrip.
+
+(* URIError exactly on the strings containing a lone surrogate *)
+Theorem C13_uri_error_iff_lone_surrogate : forall s,
+  (encodeURI_spec s = None <-> well_formed s = false) /\
+  (encodeURIComponent_spec s = None <-> well_formed s = false).
+Proof. exact encode_error_iff. Qed.
+Print Assumptions C13_uri_error_iff_lone_surrogate.
+
+(* otto's encoder (pairing loop, UTF-8, regexp class, url.QueryEscape) IS the ES5 Encode,
+   on every list of code units, error cases included *)
+Theorem C13_encode_model_is_spec : forall s, Forall (fun c => 0 <= c) s ->
+  encode_model keep_uri s = encodeURI_spec s /\ encode_model keep_comp s = encodeURIComponent_spec s.
+Proof. exact encode_model_is_spec. Qed.
+Print Assumptions C13_encode_model_is_spec.
+
+(* the characters otto leaves unescaped are the 15.1.3 unescaped sets *)
+Theorem C13_unreserved_sets : forall c,
+  unesc_uri c = (keep_uri c || query_unreserved c) /\ unesc_comp c = (keep_comp c || query_unreserved c).
+Proof. exact sets_agree. Qed.
+Print Assumptions C13_unreserved_sets.
+
+(* B.2.1-2: unescape inverts escape on EVERY code unit string (surrogates included) *)
+Theorem C13_escape_roundtrip : forall s, Forall unit_range s -> unescape_spec (escape_spec s) = s.
+Proof. exact escape_roundtrip. Qed.
+Print Assumptions C13_escape_roundtrip.
+
+Theorem C13_escape_output_alphabet : forall s c, Forall unit_range s -> In c (escape_spec s) ->
+  esc_unescaped c = true \/ c = 37 \/ c = 117.
+Proof. exact escape_output_chars. Qed.
+Print Assumptions C13_escape_output_alphabet.
+
+(* ---- 15.8.2 special values ---- *)
+(* every ES5 rule for pow is honoured by otto's pre-check over math.Pow's special cases,
+   except the one cell pow(1, NaN) *)
 Theorem C13_pow_special_values : forall cx cy r,
   pow_tbl cx cy = Some r ->
   otto_pow_tbl cx cy = Some r \/ (cx = CFin false KOne /\ cy = CNaN).
 Proof. exact pow_table_honoured. Qed.
 Print Assumptions C13_pow_special_values.
 
+Theorem C13_pow_extra_cells : forall cx cy r,
+  pow_tbl cx cy = None -> otto_pow_tbl cx cy = Some r -> r = ROne false /\ cx = CFin false KOne.
+Proof. exact pow_table_extra. Qed.
+Print Assumptions C13_pow_extra_cells.
+
 Theorem C13_atan2_special_values : forall cy cx, otto_atan2_tbl cy cx = atan2_tbl cy cx.
 Proof. exact atan2_table_eq. Qed.
 Print Assumptions C13_atan2_special_values.
+
+(* ---- max / min: otto's argument-count switch and early-exit loop compute the
+   15.8.2.11-12 fold, for every argument list ---- *)
+Theorem C13_max_min_model_is_spec : forall l, Forall valid_bits l ->
+  max_model l = max_spec l /\ min_model l = min_spec l.
+Proof. intros l H. split; [exact (max_model_is_spec l H) | exact (min_model_is_spec l H)]. Qed.
+Print Assumptions C13_max_min_model_is_spec.
+
+(* +0 is larger than -0 in every argument order *)
+Theorem C13_max_min_zero : forall l, Forall valid_bits l -> existsb is_nan l = false ->
+  (In 0 l -> (forall x, In x l -> key x <= 0) -> max_spec l = 0) /\
+  (In nzero_bits l -> (forall x, In x l -> -1 <= key x) -> min_spec l = nzero_bits).
+Proof. intros l HV Hn. split; [exact (max_zero l HV Hn) | exact (min_zero l HV Hn)]. Qed.
+Print Assumptions C13_max_min_zero.
+
+Theorem C13_max_min_nan : forall l, Forall valid_bits l ->
+  (is_nan (max_spec l) = true <-> existsb is_nan l = true) /\
+  (is_nan (min_spec l) = true <-> existsb is_nan l = true).
+Proof. exact max_nan_iff. Qed.
+Print Assumptions C13_max_min_nan.
+
+(* the maximum is one of the arguments (or -inf) and dominates all of them *)
+Theorem C13_max_is_largest : forall l,
+  let m := fold_left max_step l ninf_bits in
+  (m = ninf_bits \/ In m l) /\ (forall x, In x l -> key x <= key m).
+Proof. intro l. destruct (fold_max_char l ninf_bits) as (A & _ & B). split; assumption. Qed.
+Print Assumptions C13_max_is_largest.
+
+(* ---- round ---- *)
+(* 15.8.2.15 picks THE integer n with n - 1/2 <= x < n + 1/2, for every rational x = S/d *)
+Theorem C13_round_characterised : forall S d, 0 < d ->
+  (let n := q_round S d in 2 * n * d - d <= 2 * S < 2 * n * d + d) /\
+  (forall n, 2 * n * d - d <= 2 * S < 2 * n * d + d -> n = q_round S d).
+Proof. intros S d H. split; [exact (q_round_char S d H) | intros n; exact (q_round_unique S d n H)]. Qed.
+Print Assumptions C13_round_characterised.
+
+(* otto's Floor(x + 0.5) is the ES5 result whenever the binary64 sum x + 0.5 is exact *)
+Theorem C13_round_partial : forall S e, e < 0 ->
+  Z.abs (fst (half_sum S e)) < 2 ^ 53 ->
+  round_int_model S e = q_round S (2 ^ (- e)).
+Proof. exact round_exact_sum. Qed.
+Print Assumptions C13_round_partial.
+
+(* ---- otto's deviations, as refutations of "model = spec" with concrete witnesses ---- *)
+Theorem C13_pow_refuted : exists cx cy, otto_pow_tbl cx cy <> pow_tbl cx cy.
+Proof. exists (CFin false KOne), CNaN. vm_compute. discriminate. Qed.
+Print Assumptions C13_pow_refuted.
+
+Theorem C13_round_refuted_pred_half : exists b, valid_bits b /\ round_model b <> round_spec b.
+Proof. exists 0x3FDFFFFFFFFFFFFF. split; [vm_compute; split; [discriminate | reflexivity] | vm_compute; discriminate]. Qed.
+Print Assumptions C13_round_refuted_pred_half.
+
+Theorem C13_round_refuted_large_odd : exists b, valid_bits b /\ round_model b <> round_spec b.
+Proof. exists 0x4330000000000001. split; [vm_compute; split; [discriminate | reflexivity] | vm_compute; discriminate]. Qed.
+Print Assumptions C13_round_refuted_large_odd.
+
+Theorem C13_atan2_underflow_refuted : exists y x obs,
+  gen_atan2_model y x obs = true /\ gen_atan2 y x obs = false.
+Proof. exists 0x8000000000000001, 0xFE37E43C8800759C, PI_bits. vm_compute. split; reflexivity. Qed.
+Print Assumptions C13_atan2_underflow_refuted.
+
+Theorem C13_tonumber_skipped_refuted : exists fn l, conv_model fn l <> conv_spec fn l.
+Proof. exists 10, [one_bits; nan_bits; one_bits]. vm_compute. discriminate. Qed.
+Print Assumptions C13_tonumber_skipped_refuted.
+
+Theorem C13_escape_at_refuted : exists s, escape_model s <> escape_spec s.
+Proof. exists [64]. vm_compute. discriminate. Qed.
+Print Assumptions C13_escape_at_refuted.
+
+Theorem C13_escape_astral_refuted : exists s, well_formed s = true /\ escape_model s <> escape_spec s.
+Proof. exists [0xD83D; 0xDE00]. split; [reflexivity | vm_compute; discriminate]. Qed.
+Print Assumptions C13_escape_astral_refuted.
+
+Theorem C13_unescape_bytes_refuted : exists s, well_formed s = true /\ unescape_model s <> unescape_spec s.
+Proof. exists [233]. split; [reflexivity | vm_compute; discriminate]. Qed.
+Print Assumptions C13_unescape_bytes_refuted.
+
+Theorem C13_unescape_surrogate_refuted :
+  exists s, unescape_model (escape_spec s) <> s /\ unescape_spec (escape_spec s) = s.
+Proof. exists [0xD83D; 0xDE00]. split; [vm_compute; discriminate | reflexivity]. Qed.
+Print Assumptions C13_unescape_surrogate_refuted.
+
+Theorem C13_lone_surrogate_refuted : exists s, decode_model false s <> decodeURIComponent_spec s.
+Proof. exists [0xD800]. vm_compute. discriminate. Qed.
+Print Assumptions C13_lone_surrogate_refuted.
+
+(* ---- non-vacuity: the hypotheses above are met by concrete values ---- *)
+Example C13_roundtrip_hyp_met :
+  Forall unit_range [97; 32; 0xD83D; 0xDE00; 0x20AC; 233; 59] /\
+  well_formed [97; 32; 0xD83D; 0xDE00; 0x20AC; 233; 59] = true /\
+  option_map decodeURI_spec (encodeURI_spec [97; 32; 0xD83D; 0xDE00; 0x20AC; 233; 59])
+  = Some (Some [97; 32; 0xD83D; 0xDE00; 0x20AC; 233; 59]).
+Proof. split; [repeat constructor; vm_compute; try discriminate; reflexivity | split; reflexivity]. Qed.
+
+Example C13_lone_surrogate_is_error : encodeURI_spec [97; 0xDC00] = None /\ well_formed [97; 0xDC00] = false.
+Proof. split; reflexivity. Qed.
+
+Example C13_pow_hyp_met : pow_tbl (CInf true) (CFin true KOdd) = Some (RZero true).
+Proof. reflexivity. Qed.
+
+Example C13_max_zero_hyp_met :
+  Forall valid_bits [nzero_bits; 0; nzero_bits] /\ existsb is_nan [nzero_bits; 0; nzero_bits] = false /\
+  In 0 [nzero_bits; 0; nzero_bits] /\ (forall x, In x [nzero_bits; 0; nzero_bits] -> key x <= 0) /\
+  max_model [nzero_bits; 0; nzero_bits] = 0.
+Proof.
+  split; [repeat constructor; vm_compute; try discriminate; reflexivity |].
+  split; [reflexivity |]. split; [cbn; auto |]. split; [| reflexivity].
+  intros x [<- | [<- | [<- | []]]]; vm_compute; discriminate.
+Qed.
+
+(* 2.5 = 5 * 2^-1: the sum 3.0 is exact and both give 3; -2.5 gives -2 *)
+Example C13_round_partial_hyp_met :
+  Z.abs (fst (half_sum 5 (-1))) < 2 ^ 53 /\ round_int_model 5 (-1) = 3 /\ q_round (-5) 2 = -2.
+Proof. vm_compute. repeat split; reflexivity. Qed.
+
+Example C13_escape_hyp_met :
+  unescape_spec (escape_spec [64; 233; 0x100; 0xD83D; 0xDE00; 37]) = [64; 233; 0x100; 0xD83D; 0xDE00; 37].
+Proof. reflexivity. Qed.
